@@ -496,3 +496,24 @@ CASES += [
  dict(id='bench-guard-is-some-and', kind='silent', file=M, old='if args.benchmark.is_some() && repeat > 0 {', new='if args.benchmark.is_some_and(|runs| runs > 0) {', checks=['C12']),
  dict(id='free-vars-left-list-twice', kind='fire', file=P, old='|| r.iter().any(|f| self.var_is_free(f, var))', new='|| l.iter().any(|f| self.var_is_free(f, var))', expect={'C12': 'var_is_free', 'C09': 'var_is_free'}),
 ]
+
+# third round of behaviour-preserving patches (bn9 .. bn12), and mutants written in their style
+TT = 'src/truth_table.rs'
+_BN3 = {9: ['C01', 'C02', 'C03', 'C04', 'C05', 'C06', 'C07', 'C09', 'C12', 'C13', 'C19', 'C20'],
+        10: ['C01', 'C03', 'C04', 'C05', 'C06', 'C08', 'C09', 'C10', 'C11', 'C12', 'C14'],
+        11: ['C07', 'C09', 'C10', 'C11', 'C12', 'C13', 'C14', 'C20'],
+        12: ['C15', 'C16', 'C17', 'C18']}
+_BN3_FILE = {9: B, 10: P, 11: M, 12: Q}
+for _k, _checks in _BN3.items():
+    for _n in range(1, 9):
+        CASES.append(dict(id='bn%d-%02d' % (_k, _n), kind='silent', file=_BN3_FILE[_k], patch='bn%d-%02d.diff' % (_k, _n), checks=_checks, control=False))
+
+CASES += [
+ dict(id='queens-accumulator-wrong-step', kind='fire', file=Q, patch='bn12-01.diff', old='            cell += n + 1;', new='            cell += n;', expect={'C15': 'N'}, control=False),
+ dict(id='graph-truncate-guard-off-by-one', kind='fire', file=G, patch='bn12-07.diff', old='    if num_edges > edges.len() {', new='    if num_edges > edges.len() + 1 {', expect={'C18': 'refuse-not-truncate'}, control=False),
+ dict(id='clique-has-edge-dropped', kind='fire', file=C, patch='bn12-04.diff', old='                        && !has_edge(&edges, v2, v1)\n', new='', expect={'C16': 'complement-edge'}, control=False),
+ dict(id='sudoku-map-chain-wrong-column', kind='fire', file=U, patch='bn12-05.diff', old='let vars = value_in_cells((0..square).map(|j| j * square + i), k);', new='let vars = value_in_cells((0..square).map(|j| j * root + i), k);', expect={'C17': 'U'}, control=False),
+ dict(id='filter-spelling-table-wrong', kind='fire', file=TT, patch='bn11-07.diff', old='        (Self::False, ["false", "False", "f", "F", "0"]),', new='        (Self::False, ["false", "False", "f", "F", "1"]),', expect={'C10': 'T'}, control=False),
+ dict(id='symbol-pair-table-wrong', kind='fire', file=P, patch='bn10-04.diff', old='    ("<=", SymbolicBDDToken::ImpliesInv),', new='    ("<=", SymbolicBDDToken::Implies),', expect={'C03': 'T', 'C08': 'T'}, control=False),
+ dict(id='lookahead-inverted', kind='fire', file=P, patch='bn10-01.diff', old='                if !next_is(SymbolicBDDToken::Comma, tokens) {\n                    break;', new='                if next_is(SymbolicBDDToken::Comma, tokens) {\n                    break;', expect={'C08': 'A2'}, control=False),
+]
